@@ -91,6 +91,7 @@ pub fn run_c10(r: &mut Report) {
 }
 
 pub fn run_c05(r: &mut Report) {
+    crate::c01::tamper_every_leaf(r);
     // pairwise distinct values have pairwise distinct canonical encodings
     let s = samples();
     let enc: Vec<Option<Vec<u8>>> = s.iter().map(|v| canon(v).ok()).collect();
@@ -103,6 +104,36 @@ pub fn run_c05(r: &mut Report) {
     }}
     r.case("no-collisions", json!({"values": s.len()}), "0 collisions", format!("{} collisions", collisions), collisions == 0);
 
+    // size classes: documents far larger than any fixture (64 KiB, 1 MiB + 1, 3 MiB strings; 100 000 array elements; depth 100)
+    // must still be encoded completely: values that differ only AFTER a huge shared member get different bytes and parse back
+    {
+        let mut bad = 0; let mut n = 0;
+        for big in [1usize << 16, (1 << 20) + 1, 3 << 20] {
+            let filler = "x".repeat(big);
+            let a = json!({"a_big": filler, "z_after": 1, "zz": {"k": [1, 2]}});
+            let b = json!({"a_big": filler, "z_after": 2, "zz": {"k": [1, 2]}});
+            let c = json!({"a_big": filler, "z_after": 1, "zz": {"k": [1, 3]}});
+            let (ea, eb, ec) = (canon(&a), canon(&b), canon(&c));
+            n += 3;
+            let back_ok = |e: &Result<Vec<u8>, String>, v: &Value| matches!(e, Ok(bytes) if serde_json::from_slice::<Value>(bytes).ok().as_ref() == Some(v));
+            if !(ea.is_ok() && eb.is_ok() && ec.is_ok() && ea != eb && ea != ec && eb != ec && back_ok(&ea, &a) && back_ok(&eb, &b) && back_ok(&ec, &c)) {
+                bad += 1;
+                r.case("large-document", json!({"shared_string_bytes": big}), "three values differing after the large member: pairwise different bytes, each parses back",
+                       format!("lens={:?} a==b:{} a==c:{}", [ea.as_ref().map(|x| x.len()).ok(), eb.as_ref().map(|x| x.len()).ok(), ec.as_ref().map(|x| x.len()).ok()], ea == eb, ea == ec), false);
+            }
+        }
+        let arr1: Vec<u32> = (0..100_000).collect();
+        let mut arr2 = arr1.clone(); arr2[99_999] = 7;
+        let (e1, e2) = (canon(&json!(arr1)), canon(&json!(arr2)));
+        n += 2;
+        if !(e1.is_ok() && e2.is_ok() && e1 != e2) { bad += 1; r.case("large-array", json!({"elements": 100000}), "different bytes", "equal or error".into(), false); }
+        let mut deep = json!(1); let mut deep2 = json!(2);
+        for _ in 0..100 { deep = json!({"k": [deep]}); deep2 = json!({"k": [deep2]}); }
+        let (d1, d2) = (canon(&deep), canon(&deep2));
+        n += 2;
+        if !(d1.is_ok() && d2.is_ok() && d1 != d2) { bad += 1; r.case("deep-document", json!({"depth": 100}), "different bytes", format!("{:?} {:?}", d1.as_ref().map(|x| x.len()), d2.as_ref().map(|x| x.len())), false); }
+        r.case("size-classes", json!({"documents": n}), "complete, distinct encodings", format!("{} failures", bad), bad == 0);
+    }
     // "expiry to the second": layouts that differ only in their expiry are signed over different bytes, and the expiry that is
     // signed is the expiry that is read back (grid: year boundaries 2024-2031 +-4 days, leap day, second granularity, far dates)
     use chrono::{TimeZone, Utc, Duration};
